@@ -30,6 +30,29 @@ pub struct World {
     /// set by the waker registered with `PduTx::replace_waker` before the last `po` (only in a world that
     /// holds the TX handle): did that poll wake the transmit side?
     pub tx_woken: std::sync::Arc<TxWoken>,
+    /// identifies this world (thread) in [`WAKE_LOG`]
+    pub wid: usize,
+}
+
+/// Every wake-up of a waker handed to `ReceiveFrameFut::poll` by a `po` op: (world id, register, step counter at
+/// the time of the wake). Lets a monitor check that accepting a response wakes the task that awaits it.
+pub static WAKE_LOG: std::sync::Mutex<Vec<(usize, u32, usize)>> = std::sync::Mutex::new(Vec::new());
+/// Step counter of the schedule-controlled runner (0 elsewhere).
+pub static STEP_NOW: std::sync::atomic::AtomicUsize = std::sync::atomic::AtomicUsize::new(0);
+
+struct FutWaker {
+    wid: usize,
+    reg: u32,
+}
+impl std::task::Wake for FutWaker {
+    fn wake(self: std::sync::Arc<Self>) {
+        self.wake_by_ref();
+    }
+    fn wake_by_ref(self: &std::sync::Arc<Self>) {
+        if let Ok(mut l) = WAKE_LOG.lock() {
+            l.push((self.wid, self.reg, STEP_NOW.load(std::sync::atomic::Ordering::SeqCst)));
+        }
+    }
 }
 
 pub struct TxWoken(pub std::sync::atomic::AtomicBool);
@@ -95,13 +118,13 @@ impl World {
         storage.set_counters(fi, pi);
         let (tx, rx, pdu_loop) = storage.split();
         let pdu_loop: &'static PduLoop<'static> = Box::leak(Box::new(pdu_loop));
-        World { storage, tx: Some(tx), rx: Some(rx), pdu_loop, regs: BTreeMap::new(), n, data, on_send: None, tx_woken: std::sync::Arc::new(TxWoken(std::sync::atomic::AtomicBool::new(false))) }
+        World { storage, tx: Some(tx), rx: Some(rx), pdu_loop, regs: BTreeMap::new(), n, data, on_send: None, tx_woken: std::sync::Arc::new(TxWoken(std::sync::atomic::AtomicBool::new(false))), wid: 0 }
     }
 
     /// Another view of the same storage for a further thread (no TX/RX handle; move those over with
     /// `take()` as needed).
     pub fn sibling(&self) -> World {
-        World { storage: self.storage, tx: None, rx: None, pdu_loop: self.pdu_loop, regs: BTreeMap::new(), n: self.n, data: self.data, on_send: None, tx_woken: std::sync::Arc::new(TxWoken(std::sync::atomic::AtomicBool::new(false))) }
+        World { storage: self.storage, tx: None, rx: None, pdu_loop: self.pdu_loop, regs: BTreeMap::new(), n: self.n, data: self.data, on_send: None, tx_woken: std::sync::Arc::new(TxWoken(std::sync::atomic::AtomicBool::new(false))), wid: 0 }
     }
 
     pub fn snapshot(&self) -> String {
@@ -246,8 +269,11 @@ impl World {
                     self.tx_woken.0.store(false, std::sync::atomic::Ordering::SeqCst);
                     tx.replace_waker(&std::task::Waker::from(self.tx_woken.clone()));
                 }
+                let wid = self.wid;
                 let Some(H::Fut(fut)) = self.regs.get_mut(&reg(1)) else { return "bad-op".into() };
-                match poll_once(fut.as_mut()) {
+                let waker = std::task::Waker::from(std::sync::Arc::new(FutWaker { wid, reg: reg(1) }));
+                let mut cx = core::task::Context::from_waker(&waker);
+                match fut.as_mut().poll(&mut cx) {
                     core::task::Poll::Pending => "pending".into(),
                     core::task::Poll::Ready(Ok(fr)) => {
                         self.regs.insert(reg(1), H::Received(fr));
